@@ -25,18 +25,19 @@ def _run_batch(args):
     fn, full, docs, base, want_walk = args
     out = []
     for j, doc in enumerate(docs):
-        for mode in (True, False):
-            tid = (base + j) * 2 + (1 if mode else 0)
+        for mode in (True, False, 'max') if j % 3 == 0 else (True, False):
+            # 'max': every situational element filled and every free value at its declared maximum length
+            tid = (base + j) * 3 + (2 if mode == 'max' else 1 if mode else 0)
             triple = wc.TRIPLES[tid % 3]
             eol = wc.EOLS[(tid // 3) % 4]
-            c = wc.Concretiser(full, triple, eol, fill_optional=mode)
+            c = wc.Concretiser(full, triple, eol, fill_optional=bool(mode), maxlen=(mode == 'max'))
             fa = bool(c.entry and c.entry['fic'] == 'FA')      # acknowledgements are not acknowledged
             text, info = c.build(doc)
             r = wc.run_validator(text, want_ack=True, want_html=(tid % 5 == 0), want_xml=(tid % 7 == 0), record_walk=want_walk)
             sets, groups = wc.ack_codes(r['ack'])
             rec = {'id': tid, 'map': fn, 'nodes': doc, 'matched': [x['path'] for x in r['nodes']], 'verdict': r['verdict'] if r['verdict'] is not None else False,
                    'nerr': len(r['errors']), 'sets': sets, 'groups': groups, 'nsets': 0 if fa else sum(1 for x in info if x[1] == 'ST'),
-                   'ngroups': 0 if fa else sum(1 for x in info if x[1] == 'GS'), 'exc': r['exc'], 'mode': 'all' if mode else 'needed', 'triple': ''.join(triple), 'eol': eol,
+                   'ngroups': 0 if fa else sum(1 for x in info if x[1] == 'GS'), 'exc': r['exc'], 'mode': 'max' if mode == 'max' else 'all' if mode else 'needed', 'triple': ''.join(triple), 'eol': eol,
                    'errors': r['errors'][:6], 'site': r.get('site', '')}
             walk = []
             for k, e in enumerate(r['walk']):
